@@ -11,7 +11,7 @@ import (
 
 func init() {
 	props["C19"] = c19
-	floors["C19"] = map[string]int{"C19.R1": 5, "C19.R2": 5, "C19.R3": 4, "C19.R4": 5}
+	floors["C19"] = map[string]int{"C19.R1": 6, "C19.R2": 5, "C19.R3": 4, "C19.R4": 5}
 }
 
 // fixedWidth sums the byte widths a frame-building function appends before the
@@ -55,12 +55,26 @@ func c19(r *Report) {
 	loop := r.Use("marbl", "Stream.loop")
 	sh := r.Use("marbl", "Stream.sendHeader")
 	sd := r.Use("marbl", "Stream.sendData")
-	nf := r.Use("marbl", "newFrame")
+	// the frame builder: by name, or by role (the module function sendHeader calls to obtain the frame)
+	nf := w.Fn("marbl", "newFrame")
+	if nf == nil && sh != nil {
+		for _, c := range plainCalls(sh) {
+			if callee := c.Call.StaticCallee(); callee != nil && callee.Blocks != nil && callee.Pkg == sh.Pkg && callee.Signature.Results().Len() == 1 && callee.Signature.Results().At(0).Type().String() == "[]byte" {
+				nf = callee
+			}
+		}
+	}
+	if nf == nil {
+		r.Rule("C19.R4", "")
+		r.Undecided("M/marbl frame builder", "UNRESOLVED: no function builds the frame header for sendHeader")
+	}
+	r.Touch(nf)
 	rd := r.Use("marbl", "bodyLogger.Read")
 	rf := r.Use("marbl", "Reader.ReadFrame")
 	if ns == nil || loop == nil || sh == nil || sd == nil || nf == nil || rd == nil || rf == nil {
 		return
 	}
+	_ = nf
 	strm := w.Named("marbl", "Stream")
 
 	r.Guard("C19.R1", "one goroutine writes the stream and every frame is handed to it whole", func() {
@@ -117,6 +131,53 @@ func c19(r *Report) {
 			r.Paths++
 			r.Decide("path", fnName(f)+": sends exactly one, completely built frame per call", ok && last, "one channel send of the final append result", "a frame is sent in pieces, twice, or before it is complete", f.Pos())
 		}
+		// every frame is a fresh allocation that the stream gives away: the writer may keep it
+		// (marbl.Handler.Write queues the very slice for its websocket subscribers)
+		okFresh := nf != nil
+		if nf != nil {
+			for _, ret := range returns(nf) {
+				for _, v := range retVals(ret, 0) {
+					sl := w.backSlice(v, flowOpt{})
+					if !anyIn(sl, func(x ssa.Value) bool { _, y := x.(*ssa.MakeSlice); return y }) {
+						okFresh = false
+					}
+					if anyIn(sl, func(x ssa.Value) bool {
+						switch y := x.(type) {
+						case *ssa.Select:
+							return true
+						case *ssa.UnOp:
+							if y.Op == token.ARROW {
+								return true
+							}
+							if y.Op == token.MUL {
+								if fa, z := y.X.(*ssa.FieldAddr); z {
+									_, isSl := fieldObj(fa).Type().Underlying().(*types.Slice)
+									return isSl
+								}
+							}
+						}
+						return false
+					}) {
+						okFresh = false
+					}
+				}
+			}
+		}
+		// and the loop does not keep a frame after writing it
+		for _, in := range instrs(loop) {
+			switch x := in.(type) {
+			case *ssa.Send:
+				okFresh = false
+				_ = x
+			case *ssa.Select:
+				for _, st := range x.States {
+					if st.Dir == types.SendOnly {
+						okFresh = false
+					}
+				}
+			}
+		}
+		r.Decide("flow", "M/marbl: every frame is a freshly allocated buffer that is not reused after it was written", okFresh, "frames come from make() and the loop only writes them", "frame buffers are recycled: a writer that keeps the slice it was given (marbl.Handler queues it for subscribers) sees later frames overwrite earlier ones", loop.Pos())
 		// the loop writes each received frame with one Write call
 		okW := false
 		for _, c := range calls(loop) {
@@ -399,9 +460,16 @@ func c19(r *Report) {
 			readAt[where] = arr.Len()
 		}
 		tagOf := func(f *ssa.Function) int64 {
-			for _, c := range plainCalls(f, "M/marbl.newFrame") {
-				if n, isC := constInt(unwrapConv(c.Call.Args[1])); isC {
-					return n
+			for _, c := range plainCalls(f) {
+				if c.Call.StaticCallee() != nf {
+					continue
+				}
+				for _, a := range c.Call.Args {
+					if strings.HasSuffix(a.Type().String(), "marbl.FrameType") {
+						if n, isC := constInt(unwrapConv(a)); isC {
+							return n
+						}
+					}
 				}
 			}
 			return -1
@@ -418,9 +486,16 @@ func c19(r *Report) {
 		// frame type tags
 		tags := map[string]bool{}
 		for _, f := range []*ssa.Function{sh, sd} {
-			for _, c := range plainCalls(f, "M/marbl.newFrame") {
-				if n, isC := constInt(unwrapConv(c.Call.Args[1])); isC {
-					tags[fmt.Sprint(n)] = true
+			for _, c := range plainCalls(f) {
+				if c.Call.StaticCallee() != nf {
+					continue
+				}
+				for _, a := range c.Call.Args {
+					if strings.HasSuffix(a.Type().String(), "marbl.FrameType") {
+						if n, isC := constInt(unwrapConv(a)); isC {
+							tags[fmt.Sprint(n)] = true
+						}
+					}
 				}
 			}
 		}
